@@ -29,6 +29,8 @@ def scn_faults(ctx):
     ev = ctx.ev
     me = ManualExecutor(ev)
     counts = {}
+    in_policy = threading.Event()
+    cancelled_once = threading.Event()
     armed = [True]
     faults = {}  # (site, k) -> Injected instance (chosen lazily per call)
     budget = [nfaults]
@@ -64,6 +66,11 @@ def scn_faults(ctx):
             counts[name] = k + 1
             if p.get("points_in_user_code") and name in ("should_retry", "sleep_time"):
                 sched.point()  # user code takes time: other threads may run meanwhile
+            if p.get("cancel_during_policy") and name == "sleep_time" and k == 0:
+                # the policy takes its time and a cancel() arrives meanwhile (a blocking hand-over,
+                # so it costs no preemption): the first cancel lands between should_retry and _retry
+                in_policy.set()
+                cancelled_once.wait(50)
             if armed[0] and budget[0] > 0 and k < maxk:
                 if ctx.choice(2, "fault@%s.%d" % (name, k)):
                     budget[0] -= 1
@@ -159,10 +166,15 @@ def scn_faults(ctx):
     cres = []
     if do_cancel and futs[0] is not None:
         def canceller():
-            for _ in range(int(do_cancel)):
-                sched.point()
+            for ci in range(int(do_cancel)):
+                if p.get("cancel_during_policy") and ci == 0:
+                    in_policy.wait(50)
+                else:
+                    sched.point()
                 try:
                     cres.append(futs[0].cancel())
+                    if ci == 0:
+                        cancelled_once.set()
                 except Exception as x:  # noqa
                     api_errors.append(("cancel", x))
         c = spawn("canceller", canceller)
@@ -246,7 +258,7 @@ ASSUMPTIONS = ["fault = the k-th call (k<2) of a user-supplied function raises I
 BOUNDS_TEXT = {"quick": "6 single layers (1-2 faults) + 10 two-layer stacks (1 fault), optional concurrent cancel; P<=1 / P=0",
                "thorough": "2 faults everywhere, P<=2 / P<=1"}
 MUST_REACH = {"*": ["fault-injected", "fault-attributed", "unaffected-checked"]}
-BUDGET = {"quick": 150.0, "thorough": 1200.0}
+BUDGET = {"quick": 150.0, "thorough": 600.0}
 
 
 def plan(tier, seed):
@@ -258,6 +270,8 @@ def plan(tier, seed):
     for pr in PAIRS:
         items.append(dict(scenario="faults", params=dict(layers=pr, nfaults=1 if q else 2, cancel=False), bounds=dict(P=0 if q else 1)))
     # two cancel() calls racing with the retry decision and the submit thread's hand-over (no injected fault)
-    items.append(dict(scenario="faults", params=dict(layers=["retry"], nfaults=0, cancel=2, single=True, points_in_user_code=True), bounds=dict(P=2 if q else 3)))
+    items.append(dict(scenario="faults", params=dict(layers=["retry"], nfaults=0, cancel=2, single=True, cancel_during_policy=True), bounds=dict(P=1 if q else 2)))
+    if not q:
+        items.append(dict(scenario="faults", params=dict(layers=["retry"], nfaults=0, cancel=2, single=True, points_in_user_code=True), bounds=dict(P=2)))
     items.append(dict(scenario="faults", params=dict(layers=["poll"], nfaults=1, cancel=2, single=True), bounds=dict(P=1 if q else 2)))
     return items
